@@ -14,6 +14,14 @@ Proof. exact gate_wf. Qed.
 Print Assumptions gate_establishes_wf.
 
 (* ... and with valid sequences the full predicate holds *)
+(* the same for the whole accept decision of load_module, which also needs the scan to find an order to play *)
+Theorem accepted_is_wf : forall r mk m, load_accepts r mk = Some m -> loader_postb r = true -> wf_noseq m = true.
+Proof.
+  intros r mk m H P. unfold load_accepts in H. destruct (finish r) as [m'|] eqn:F; [|discriminate].
+  destruct (scan_finds mk m'); [|discriminate]. injection H as <-. exact (gate_wf r m' F P).
+Qed.
+Print Assumptions accepted_is_wf.
+
 Theorem gate_wf_full : forall r m, finish r = Some m -> loader_postb r = true -> seqs_okb m = true -> public_wfb m = true.
 Proof.
   intros r m F P S. pose proof (gate_wf r m F P) as W. unfold wf_noseq in W. unfold public_wfb. rewrite W, S. reflexivity.
